@@ -1107,6 +1107,67 @@ func (e *env) runLayout(q *querySpec, sql string, m *modelOut, ref node.Result, 
 	}
 	e.xc.Order = nil
 
+	// (1b) a storage node that holds data of the answer fails (its task processor returns an error that is no
+	// not-found): the answer would no longer be a function of the written points, so the query must fail instead of
+	// answering from the other nodes - whether the failure is handled first or last. The responses are handed to the
+	// root after its pipeline ended (a failure handled while the root is still sending is the known finding
+	// sigFailureForgotten, see TestRegression_NodeFailureWhileTheRootIsSendingIsForgotten).
+	if nData > 0 {
+		victim := ""
+		for _, name := range names {
+			if kinds[name] == "data" {
+				victim = name
+				break
+			}
+		}
+		for _, first := range []bool{true, false} {
+			if nLeaves == 1 && !first {
+				continue
+			}
+			order := []string{}
+			if first {
+				order = append(order, victim)
+			}
+			for _, name := range names {
+				if name != victim {
+					order = append(order, name)
+				}
+			}
+			if !first {
+				order = append(order, victim)
+			}
+			e.xc.Compute, e.xc.AfterPlan = nil, true
+			e.xc.Order = func(_ string, arrived []string) []string {
+				if len(arrived) != nLeaves {
+					return arrived
+				}
+				return order
+			}
+			e.xc.FailLeaf = map[string]string{victim: "injected: the storage node failed"}
+			rs, err := e.xc.Query("root:1", l.db, sql)
+			obs := e.xc.observed()
+			e.xc.mu.Lock()
+			stuck := append([]string(nil), e.xc.Stuck...)
+			e.xc.mu.Unlock()
+			e.xc.FailLeaf, e.xc.Order, e.xc.AfterPlan = nil, nil, false
+			if len(stuck) > 0 {
+				t.Fatalf("harness: %v", stuck)
+			}
+			if err == nil {
+				t.Fatalf("C12 violated: storage node %s failed (it holds data of the answer), the query returned an answer instead of an error\nquery:    %s\nlayout:   %s\ndelivery: %v (after the root had sent the plan)\nresponses: %+v\nanswer:\n%sdata: %s",
+					victim, sql, l, order, obs, node.Canon(rs), dataJSON)
+			}
+			what := "fault:a-node-with-data-fails:" + map[bool]string{true: "failure-handled-first", false: "failure-handled-last"}[first]
+			if nLeaves == 1 {
+				what = "fault:the-only-node-fails"
+			}
+			ev.Class(e.group, what, 1)
+			if !strings.Contains(err.Error(), "injected") {
+				ev.Class(e.group, "info:fault:the-query-fails-with-another-error-than-the-node's", 1)
+			}
+		}
+	}
+
 	// (2) the same through sim/node's cluster (production pool of one worker at the root) for the
 	// reversed order and one more generated order
 	if nLeaves >= 2 {
